@@ -222,6 +222,10 @@ def compare(ctx, case, r, m):
 
 
 def shrink(case):
+    if case.get("aux") == "jaxsimp":
+        if case.get("wm"):
+            yield dict(case, wm=False)
+        return
     if case.get("aux") == "sea":
         if case["nsamp"] > 1:
             yield dict(case, nsamp=1)
@@ -271,6 +275,7 @@ def run(ctx):
     # per-class rules outside the Lean model (VariableCovarianceGaussianEnergy, StandardHamiltonian): oracle on the real code
     aux += AUX.gen(ctx.rng, ctx.n(60, 600))
     aux += AUX.gen_sea(ctx.rng, ctx.n(12, 120))
+    aux += AUX.gen_jax(ctx.rng, ctx.n(8, 60))
     for c in aux:
         ctx.stat("aux:" + c["aux"])
         ctx.case(c, nontrivial=True)
